@@ -621,7 +621,23 @@ def c08_scope(res, pid, rng, tier):
                         pairs9.append((e1, e2))
             if len(pairs9) >= 3:
                 break
-        for e1, e2 in pairs9[:3]:
+        pairs9 = pairs9[:3]
+        # hand-edited `$9$` strings: the last character repeated (a gap of -1) against its successor in the alphabet (a gap of 0) -
+        # the reference decoder reads two different clear texts; and two clear texts that differ in a trailing NUL character only
+        for sc_ in (ALPHA[(i0 + 7) % len(ALPHA)], "n"):
+            eb = _enc("hunter%dpass" % rng.randint(0, 99), sc_)
+            for k_ in (1, 2):
+                s1_ = eb[:-k_] + eb[-k_ - 1] + eb[len(eb) - k_ + 1:]
+                s2_ = eb[:-k_] + ALPHA[(ALPHA.index(eb[-k_ - 1]) + 1) % len(ALPHA)] + eb[len(eb) - k_ + 1:]
+                try:
+                    if ref_decrypt(s1_) != ref_decrypt(s2_):
+                        pairs9.append((s1_, s2_))
+                except Exception:  # noqa
+                    pass
+            pl_ = "Tr%dailing" % rng.randint(0, 99)
+            pairs9.append((_enc(pl_, sc_), _enc(pl_ + "\x00", sc_)))
+            pairs9.append((_enc(pl_ + "\x00", sc_), _enc(pl_ + "\x00\x00", sc_)))
+        for e1, e2 in pairs9:
             l9 = ['secret "%s"\n' % e1, 'secret "%s"\n' % e2, 'secret "%s"\n' % e1]
             try:
                 o9, _ = run_lines(cfg, l9)
@@ -962,6 +978,28 @@ def c09_scope(res, pid, rng, tier):
         if outs_c and (len(outs_c) != len(copies) or any(frame(a) != frame(b) for a, b in zip(copies, outs_c))):
             fails.append({"kind": "white space before / after the line or its terminator not kept in place when the same secret line occurs again",
                           "salt": cfg.salt, "lines": copies, "outputs": outs_c})
+    # the `$9$` replacement under every salt whose first character is a character of the `$9$` alphabet (it becomes the salt character
+    # of the replacement): an independent decoder reads it, and reads the same clear text under every salt
+    from .jun_checks import ref_decrypt as _rd9, ref_encrypt as _re9
+    seen9 = {}
+    for ch in ALPHA:
+        try:
+            o9_, _ = run_lines(fa.FaCfg(salt=ch + "saltsalt", pwd=True), ['secret "%s"\n' % _re9("plain-text-9", "n")])
+        except Exception as e:  # noqa
+            fails.append({"kind": "anonymize_io raised", "exc": repr(e), "salt": ch + "saltsalt"})
+            continue
+        res.evaluations += 1
+        rep = extract(o9_[0], 'secret "{}"', "{}")
+        try:
+            seen9[ch] = _rd9(rep)
+        except Exception:  # noqa
+            fails.append({"kind": "a `$9$` secret was replaced by a string that an independent `$9$` decoder cannot read", "salt": ch + "saltsalt",
+                          "line": 'secret "%s"' % _re9("plain-text-9", "n"), "output": o9_[0]})
+    if len(set(seen9.values())) > 1:
+        vals = sorted(set(seen9.values()), key=lambda v: -list(seen9.values()).count(v))
+        odd = [c for c in seen9 if seen9[c] != vals[0]]
+        fails.append({"kind": "the `$9$` replacement decodes (independent decoder) to another clear text under this salt than under the others",
+                      "salt": odd[0] + "saltsalt", "decoded": seen9[odd[0]], "decoded_under_other_salts": vals[0]})
     # a listed word that occurs inside a secret: the secret is replaced first, so the replacement has the secret's own format class
     # (and md5 salt length), whatever the word stage would have made of the secret
     cfgk = fa.FaCfg(salt="kw", pwd=True, words=["471108", "acme", "822455"])
